@@ -103,7 +103,7 @@ void mode_param()
         sbv_assume(ltmax ? (v < hi) : (v <= hi));
         param = parameter_t::make_scalar("scalar::param", lo, cmin, v, cmax, hi);
         const long total = write_object(param);
-        parameter_t back;
+        parameter_t back = sbv_cfg("dst", 1) ? parameter_t::make_string("some::other::parameter", "old value") : parameter_t{};
         sbv_check(!read_fails(back, total), "round trip: reader succeeds on the writer's output");
         sbv_check(back == param, "round trip: parameters compare equal (name, value, domain, comparators)");
         sbv_check(bits(back.value<scalar_t>()) == bits(v), "round trip: the value is read back bit-identically");
@@ -116,7 +116,7 @@ void mode_param()
         sbv_assume(ltmax ? (v < hi) : (v <= hi));
         param = parameter_t::make_integer("integer::param", lo, cmin, v, cmax, hi);
         const long total = write_object(param);
-        parameter_t back;
+        parameter_t back = sbv_cfg("dst", 1) ? parameter_t::make_string("some::other::parameter", "old value") : parameter_t{};
         sbv_check(!read_fails(back, total), "round trip: reader succeeds on the writer's output");
         sbv_check(back == param, "round trip: parameters compare equal (name, value, domain, comparators)");
         sbv_check(back.value<int64_t>() == v, "round trip: the value is read back bit-identically");
@@ -130,7 +130,7 @@ void mode_param()
         sbv_assume(ltmax ? (v2 < hi) : (v2 <= hi));
         param = parameter_t::make_scalar_pair("pair::param", lo, cmin, v1, LE, v2, cmax, hi);
         const long total = write_object(param);
-        parameter_t back;
+        parameter_t back = sbv_cfg("dst", 1) ? parameter_t::make_string("some::other::parameter", "old value") : parameter_t{};
         sbv_check(!read_fails(back, total), "round trip: reader succeeds on the writer's output");
         sbv_check(back == param, "round trip: parameters compare equal (name, value, domain, comparators)");
         const auto [b1, b2] = back.value_pair<scalar_t>();
@@ -143,7 +143,7 @@ void mode_param()
         sbv_assume(lo <= v1 && v1 < v2 && v2 <= hi);
         param = parameter_t::make_integer_pair("ipair::param", lo, LE, v1, LT, v2, LE, hi);
         const long total = write_object(param);
-        parameter_t back;
+        parameter_t back = sbv_cfg("dst", 1) ? parameter_t::make_string("some::other::parameter", "old value") : parameter_t{};
         sbv_check(!read_fails(back, total), "round trip: reader succeeds on the writer's output");
         sbv_check(back == param, "round trip: parameters compare equal (name, value, domain, comparators)");
         const auto [b1, b2] = back.value_pair<int64_t>();
@@ -156,7 +156,7 @@ void mode_param()
         sbv_make_symbolic(value.data(), value.size(), "chars");
         param = parameter_t::make_string("string::param", value);
         const long total = write_object(param);
-        parameter_t back;
+        parameter_t back = sbv_cfg("dst", 1) ? parameter_t::make_string("some::other::parameter", "old value") : parameter_t{};
         sbv_check(!read_fails(back, total), "round trip: reader succeeds on the writer's output");
         const auto got = back.value<string_t>();
         int        same = got.size() == value.size() ? 1 : 0;
@@ -168,7 +168,7 @@ void mode_param()
     {
         param = parameter_t::make_enum("enum::param", solver_status::max_iters);
         const long total = write_object(param);
-        parameter_t back;
+        parameter_t back = sbv_cfg("dst", 1) ? parameter_t::make_string("some::other::parameter", "old value") : parameter_t{};
         sbv_check(!read_fails(back, total), "round trip: reader succeeds on the writer's output");
         sbv_check(back == param, "round trip: parameters compare equal (name, value, domain, comparators)");
         sbv_check(back.value<solver_status>() == solver_status::max_iters, "round trip: the value is read back bit-identically");
@@ -212,7 +212,7 @@ void mode_string()
     {
         imembuf      ib(buf, buf + p);
         std::istream is(&ib);
-        std::string  got;
+        std::string  got = sbv_cfg("dst", 1) ? std::string("previous content of the destination") : std::string();
         nano::read(is, got);
         if (p < total) sbv_check(is.fail(), "strict prefix of a valid string stream: reader reports failure");
         else
